@@ -325,6 +325,18 @@ class AnyU:
         self.a, self.b = a, b
 
 
+class Dashed:
+    """Automatically recognised, keys written with dashes in the document
+    (recognition accepts either spelling, savorize normalises them)."""
+    def __init__(self, max_retries: int, log_level: str = 'info') -> None:
+        T(self, locals())
+        self.max_retries, self.log_level = max_retries, log_level
+
+    @classmethod
+    def _yatiml_savorize(cls, node: yatiml.Node) -> None:
+        node.dashes_to_unders_in_keys()
+
+
 class Copying:
     """A constructor that USES its arguments instead of just storing them:
     they must be complete when it runs (constructors run bottom-up)."""
